@@ -290,6 +290,74 @@ def types_consts(repo, info):
     return '\n'.join(L) + '\n'
 
 
+def xsl_consts(repo, info):
+    """Tables of akn_text.xsl: preserve-space list, the escape-prefixes keyword list (equals / starts-with),
+    the match lists of the container, hierarchical and generic-inline templates, the synonym keywords."""
+    import xml.etree.ElementTree as ET
+    XSL = '{http://www.w3.org/1999/XSL/Transform}'
+    root = ET.parse(os.path.join(repo, 'bluebell', 'akn_text.xsl')).getroot()
+
+    def names(s):
+        return [x.strip().replace('a:', '') for x in re.split(r'[\s|]+', s.strip()) if x.strip()]
+    pres = root.find(XSL + 'preserve-space')
+    strip = root.find(XSL + 'strip-space')
+    if pres is None or strip is None or strip.get('elements').strip() != '*':
+        raise TranslateError('akn_text.xsl: expected strip-space * and a preserve-space list')
+    preserve = names(pres.get('elements'))
+    esc = next((t for t in root.findall(XSL + 'template') if t.get('name') == 'escape-prefixes'), None)
+    if esc is None:
+        raise TranslateError('akn_text.xsl: no escape-prefixes template')
+    tests = [i.get('test') for i in esc.iter(XSL + 'if')]
+    if len(tests) != 1:
+        raise TranslateError('escape-prefixes: expected a single xsl:if')
+    test = tests[0]
+    equals = re.findall(r"\$text\s*=\s*'([^']*)'", test)
+    starts = re.findall(r"starts-with\(\$text,\s*'([^']*)'\)", test)
+    rest = re.sub(r"\$text\s*=\s*'[^']*'|starts-with\(\$text,\s*'[^']*'\)|\bor\b|\s", '', test)
+    if rest:
+        raise TranslateError(f'escape-prefixes: unrecognised condition parts {rest[:60]!r}')
+    tm = {}
+    for t in root.findall(XSL + 'template'):
+        m = t.get('match')
+        if not m:
+            continue
+        ns = names(m)
+        if 'arguments' in ns and 'preface' in ns:
+            tm['containers'] = ns
+        elif 'body' in ns and 'mainBody' in ns:
+            tm['bodies'] = ns
+        elif 'article' in ns and 'section' in ns:
+            tm['hier'] = ns
+            syn = []
+            for w in t.iter(XSL + 'when'):
+                mm = re.fullmatch(r'self::a:(\w+)', w.get('test', ''))
+                txt = w.find(XSL + 'text')
+                if mm and txt is not None:
+                    syn.append((mm.group(1), txt.text))
+            tm['hier_synonyms'] = syn
+        elif 'abbr' in ns and 'term' in ns:
+            tm['inlines'] = ns
+        elif 'scene' in ns and 'narrative' in ns:
+            tm['speech_blocks'] = ns
+        elif 'meta' in ns:
+            tm['ignored'] = ns
+    for k in ('containers', 'bodies', 'hier', 'inlines', 'speech_blocks', 'ignored', 'hier_synonyms'):
+        if k not in tm:
+            raise TranslateError(f'akn_text.xsl: template for {k} not found')
+    info['xsl'] = {'preserve': preserve, 'equals': equals, 'starts': starts, **{k: v for k, v in tm.items()}}
+    L = [f'def xslPreserveSpace : List String := {lean_strs(preserve)}',
+         f'def xslEscapeEquals : List String := {lean_strs(equals)}',
+         f'def xslEscapeStarts : List String := {lean_strs(starts)}',
+         f'def xslContainers : List String := {lean_strs(tm["containers"])}',
+         f'def xslBodies : List String := {lean_strs(tm["bodies"])}',
+         f'def xslHier : List String := {lean_strs(tm["hier"])}',
+         f'def xslHierSynonyms : List (String × String) := {lean_pairs(tm["hier_synonyms"])}',
+         f'def xslInlines : List String := {lean_strs(tm["inlines"])}',
+         f'def xslSpeechBlocks : List String := {lean_strs(tm["speech_blocks"])}',
+         f'def xslIgnored : List String := {lean_strs(tm["ignored"])}']
+    return '\n'.join(L) + '\n'
+
+
 def generate(repo, out_dir=None):
     info = {}
     out_dir = out_dir or os.path.join(os.path.dirname(os.path.abspath(__file__)), '..', 'lean', 'Bluebell', 'Gen')
@@ -298,5 +366,6 @@ def generate(repo, out_dir=None):
     parts.append(runtime_tables(info, out_dir))
     parts.append(xml_consts(repo, info))
     parts.append(types_consts(repo, info))
+    parts.append(xsl_consts(repo, info))
     parts.append('end Bluebell\n')
     return '\n'.join(parts), info
